@@ -57,6 +57,28 @@ fn p_opt_methods() {
     kani::cover!(model.is_some(), "Some");
     kani::cover!(model.is_none(), "None");
 }
+impl Clone for D { fn clone(&self) -> Self { D::new(self.v) } }
+#[kani::proof]
+fn p_opt_clone() {
+    // clone / clone_from (reached through Vec<COption<T>>::clone_from and friends): the result has
+    // the source's variant and payload; a replaced payload is dropped exactly once
+    let (o, model) = any_opt();
+    let (o2, model2) = any_opt();
+    let mut dst: COption<D> = o.into();
+    let src: COption<D> = o2.into();
+    let c = src.clone();
+    assert!(c.as_ref().map(|d| d.v) == model2 && c.as_ref().map(|d| d.ok()).unwrap_or(true), "C12 clone keeps variant and payload");
+    drop(c);
+    assert!(drops() == model2.is_some() as u32, "C12 the clone owns its own payload");
+    dst.clone_from(&src);
+    assert!(dst.is_some() == model2.is_some() && dst.as_ref().map(|d| d.v) == model2, "C12 clone_from gives the target the source's variant and payload");
+    assert!(src.as_ref().map(|d| d.v) == model2, "C12 clone_from leaves the source unchanged");
+    assert!(drops() == model2.is_some() as u32 + model.is_some() as u32, "C12 the replaced payload is dropped exactly once");
+    drop(dst); drop(src);
+    assert!(drops() == 3 * model2.is_some() as u32 + model.is_some() as u32, "C12 every payload dropped exactly once");
+    kani::cover!(model.is_some() && model2.is_none(), "Some <- None");
+    kani::cover!(model.is_none() && model2.is_some(), "None <- Some");
+}
 struct Pz;
 impl Drop for Pz { fn drop(&mut self) { unsafe { DROPS += 1 } } }
 #[repr(align(64))]
